@@ -55,7 +55,7 @@ SPEC = {
  "C05": (["OxiddModel.Bdd.PropertiesC05"], [("c05", ["bdd", "bcdd", "zbdd"])]),
  "C06": ([(GEN + "ObBdd", r"memo_"), (GEN + "ObMtbdd", r"memo_"), (GEN + "ObTdd", r"memo_"), "OxiddModel.Bdd.PropertiesC06", "OxiddModel.Bcdd.PropertiesC06", "OxiddModel.Zbdd.PropertiesC06"], [("c06", ["bdd", "bcdd", "zbdd"])]),
  "C07": ([GEN + "ObOrderings", "OxiddModel.Bdd.PropertiesC07", ("OxiddModel.Locks.Properties", r"acquisitions_ranked|no_deadlock|no_cyclic_wait|try_never_blocks|holds_buckets|exclusive_|reentrant_|pool_takes"), ("OxiddModel.Locks.PropertiesTrace", r"trace_|ok_toProg|accepts_|follows_|stepThread_trace|evWhy|driver_|ctxTable|tableContexts")], [("c07", ["bdd", "bcdd", "zbdd"])]),
- "C08": (["OxiddModel.Reorder.Properties", ("OxiddModel.Reorder.PropertiesStore", r"swapS_|swapsS_|bubbleDownS|setVarOrderS")], [("c08", ["bdd", "bcdd", "zbdd"])]),
+ "C08": (["OxiddModel.Reorder.Properties", ("OxiddModel.Reorder.PropertiesStore", r"swapS_|swapsS_|bubbleDownS|setVarOrderS"), ("OxiddModel.Reorder.PropertiesStoreC", r"swapC_|swapsC_|setVarOrderC")], [("c08", ["bdd", "bcdd", "zbdd"])]),
  "C09": ([(Z, r"family|union|intsec|diff|subset|change|makeNode|bool_view|add_vars|taut|setops|const_nf"), ("OxiddModel.Zbdd.PropertiesC06", r"zbdd_setop_spec|zbdd_subset_spec|zbdd_not_spec|zbdd_ite_spec|zbdd_restrict_spec|zbdd_taut|zbdd_restrict_sound_across_addvars|zbdd_terminal_refines")], [("c09", ["zbdd"])]),
  "C12": (["OxiddModel.Bdd.PropertiesC12", (B, r"satcount"), (Z, r"satcount")], [("c12", ["bdd", "bcdd", "zbdd"])]),
  "C13": (["OxiddModel.Bdd.PropertiesC13", (B, r"pick|choice|literal"), (Z, r"pick")], [("c13", ["bdd", "bcdd", "zbdd"])]),
@@ -86,6 +86,7 @@ for pid, (mods, suites) in SPEC.items():
         # the same operation file replayed on the store-level model of level_swap / set_var_order
         # (ids, per-level tables, reference counts; `dump` directly after `order` is predicted)
         streams.append({"name": "bdd-c08-store", "bin": "bf", "proto": "reorder-store", "gen": {"quick": ["--kind", "bdd", "--suite", "c08", "--dump-after-order", "1"], "thorough": ["--kind", "bdd", "--suite", "c08", "--dump-after-order", "1", "--tier", "quick", "--scale", "3"]}, "run_args": ["--kind", "bdd"]})
+        streams.append({"name": "bcdd-c08-store", "bin": "bf", "proto": "reorder-store-bcdd", "gen": {"quick": ["--kind", "bcdd", "--suite", "c08", "--dump-after-order", "1"], "thorough": ["--kind", "bcdd", "--suite", "c08", "--dump-after-order", "1", "--tier", "quick", "--scale", "3"]}, "run_args": ["--kind", "bcdd"]})
         streams += [kf("kf-zbdd-reorder", "zbdd"), kf("kf-reorder-oom", "bdd")]
     if pid == "C14":
         streams += [kf("kf-reorder-oom", "bdd"), kf("kf-zbdd-addvars-oom", "zbdd")]
@@ -144,7 +145,7 @@ META = {
          "PARTIAL: real scheduler, memory model (Release/Acquire sufficiency assumed), lock fairness and condvar wake-ups are outside the models; resumption-level composition of fine-grained interleavings is argued, call-level composition is proved; a lock site without a hook is invisible to the trace check.",
          "Lean rely/guarantee proof + concurrent stress correspondence"),
  "C08": ("Proved: the target order is a permutation respecting the requested relative order, unnamed levels are placed stably at a cost-minimal (top-most) indicator; the segment tree refines the list model; bubble sort emits exactly the inversions, the concurrent task state machine never overlaps swaps, is linearizable and terminates sorted; a level swap on trees preserves the function of the variables, normal form and handle equality. Tied: level maps after total/partial reorderings and all handles' trees identical to the model's for BDD/BCDD (all source x target orders on 3 variables with 256 functions alive, sparse diagrams with empty levels, random to 10 variables, 8 threads with >65536 nodes); ZBDD reordering of live nodes is a known finding. Store level (BDD): the in-place `level_swap` on an id-indexed heap with per-level tables, for every iteration order and allocator, re-establishes the invariant (ordered, reduced, no duplicate among moved/rewritten/fresh nodes, exact reference counts), every surviving id denotes the swapped tree, exactly the characterised orphans are freed; lifted to `set_var_order` with lazy level numbers (`setVarOrderS_correct`); three pre-fix variants are proved wrong. The store model replays the same operation file (`dump` right after `order` is predicted). The two swap schedulers are driven directly (hook) on all permutations of up to 5/6 levels and random sequences with 2-16 workers: no overlapping swaps, every swap an inversion, minimal count.",
-         "PARTIAL: global minimality of the number of adjacent swaps is tested, not proved; BCDD/ZBDD instances of the store-level swap are not proved (streams and oracles only).",
+         "PARTIAL: global minimality of the number of adjacent swaps is tested, not proved; the store-level swap is proved for BDD and BCDD (complement edges: the then-edge of a rewritten node stays regular, no incoming edge needs retagging, `swapC_inv`/`swapC_sem`/`setVarOrderC_correct`), not for ZBDD (whose reordering of live nodes is a known finding), MTBDD, TDD.",
          "Lean proof (order computation, sorting, swap semantics) + correspondence"),
  "C09": ("Proved for all trees: union/intsec/diff/subset0/subset1/change/make_node/singleton/base/empty denote the documented families for every position of the variable, Boolean view consistent, add_vars keeps the family (view gains the negated new variable), normal forms preserved. Tied by all 256 families x variables x 6 orders, pairs, and histories adding variables between (repeated) operations.",
          "", "Lean proof of family semantics + exhaustive small-scope correspondence"),
